@@ -362,7 +362,8 @@ def null_list_terms():
             ("null-in-list", T.unop("Not", T.binop("In", n, T.lst(T.NULL))))]
     out += [("list-operand", T.binop("Eq", L12, L12)), ("list-operand", T.binop("NotEq", L12, L12)), ("list-operand", T.binop("Lt", L12, L13)),
             ("list-operand", T.binop("Or", T.binop("Eq", s, T.Str("zzz")), T.binop("Eq", L12, L12))), ("list-operand", T.unop("Not", T.binop("Eq", L12, L12))),
-            ("list-operand", T.binop("Eq", n, L12)), ("list-operand", T.binop("Eq", T.call("length", L12), two)),
+            ("list-operand", T.binop("Eq", n, L12)), ("list-operand", T.binop("In", L12, T.lst(L12, L13))), ("list-operand", T.binop("In", T.lst(n, one), T.lst(L12, L13))),
+            ("list-operand", T.unop("Not", T.binop("In", L12, T.lst(L12)))), ("list-operand", T.binop("Eq", T.call("length", L12), two)),
             ("list-operand", T.binop("Eq", T.call("tolower", T.lst(T.Str("a"))), s))]
     big = ("Integer", "9" * 5000)
     out += [("overflow-literal", T.binop("Eq", n, big)), ("overflow-literal", T.binop("In", n, T.lst(one, big))),
